@@ -5,17 +5,21 @@
     consumed, results and scores are those of everything processed; slice-construction variants that drop the tail or
     repeat a trace are refuted (sensitivity).  specs/BatchRule.tla: the table lookup loop equals "entry with the largest
     threshold <= trace length"; the MB rule; always >= 1.
+    specs/ContainerFeed.tla: what is fed for a trace is the frame selection passed through the preprocess chain in order; sample-wise chains
+    commute with the selection, mixing ones do not ("chain, then decimate" is refuted on the very cases that are replayed).
 (G) each generated behaviour is executed through the public API (read_ths_from_ram, Container, set_batch_size,
     <X>Attack / <X>Reverse .run) with wrappers recording what process / update / compute_results saw: batch ids == the
-    specification's feed; update's traces == chain(samples[ids][:, frame]) and data == model(sf(metadata[ids])) exactly;
+    specification's feed; update's traces == the feed ContainerFeed.tla derives for those traces and data == model(sf(metadata[ids])) exactly;
     results bit-identical to the standalone distinguisher fed once with everything (exact regime); scores ==
     discriminant(results); repeated runs accumulate.  Container.batch_size on real RAM sets vs BatchRule.
 """
 import json
+import os
 import random
 
 import numpy as np
 
+from .. import disthist as dh
 from .. import pipeline as pl
 from .. import tlc
 from ..dist import memoise_lut
@@ -63,7 +67,38 @@ def execute(beh, kind, mode, precision, frame, chain, seed, step=None):
     return a, rec, sets, mk
 
 
-def compare(chk, beh, a, rec, sets, mk, ctx, frame, chain, check_cols=False):
+def spec_feeds(chk, plan):
+    """specs/ContainerFeed.tla: for every planned run and every one of its trace sets, the array the analysis must be fed for the whole set
+    (frame first, then the chain); also the lemma on sample-wise chains and the refutation of "decimate after the chain" on these very cases"""
+    cases, owner = [], []
+    for pi, (beh, frame, chain, seed) in enumerate(plan):
+        rs = np.random.RandomState(seed)
+        for si, n in enumerate(beh['ns']):
+            samples, _ = pl.gen_arrays(rs, n, 6, 2)
+            cases.append({'rows': samples.tolist(), 'frame': pl.frame_positions(frame, 6), 'chain': list(chain)})
+            owner.append((pi, si))
+    path = dh.write_json(cases)
+    try:
+        r = tlc.run('ContainerFeed', cfg_text=tlc.cfg(invariants=['SampleWiseCommutes', 'FeedWidth', 'Emit']), env={'CASES': path}, workers=1, timeout=1200)
+        chk.add_tlc('MC+GEN:container feed (frame, then preprocess chain)', r)
+        if r.violated:
+            raise tlc.TLCError(f'ContainerFeed violates {r.violated}')
+        r2 = tlc.run('ContainerFeed', cfg_text=tlc.cfg(invariants=['OrderIrrelevant']), env={'CASES': path}, workers=1, timeout=1200)
+        chk.add_tlc('MC:container feed (chain before the frame selection, must be refuted)', r2)
+        if not r2.violated:
+            raise tlc.TLCError('ContainerFeed lost sensitivity: no planned case distinguishes "chain then decimate" from "frame then chain"')
+    finally:
+        os.unlink(path)
+    out = {}
+    for e in r.emits():
+        pi, si = owner[e['case'] - 1]
+        out.setdefault(pi, {})[si] = np.array(e['fed'], dtype='int64').reshape(len(cases[e['case'] - 1]['rows']), -1)
+    if sum(len(v) for v in out.values()) != len(cases):
+        raise tlc.TLCError('ContainerFeed: missing cases')
+    return out
+
+
+def compare(chk, beh, a, rec, sets, mk, ctx, frame, chain, check_cols=False, spec_fed=None):
     pp = pl.preprocesses()
     bad = None
     fed = beh['fed']
@@ -89,13 +124,15 @@ def compare(chk, beh, a, rec, sets, mk, ctx, frame, chain, check_cols=False):
         order.append(run)
         samples, v, _ = sets[run - 1]
         xt, xd = pl.expected_arrays(a, samples, v, np.arange(lo, lo + len(ids)), frame, chain, pp)
+        if spec_fed is not None:
+            xt = spec_fed[run - 1][lo:lo + len(ids)]           # the specification's feed for these traces (ContainerFeed.tla)
         if tr.shape != xt.shape or not np.array_equal(tr, xt):
             bad = 'update receives the frame of each trace passed through the preprocess chain in order'
             break
         if d.shape != xd.shape or not np.array_equal(d, xd):
             bad = 'each trace is paired with its own metadata: data equals model(selection_function(metadata of the same traces))'
             break
-        alltr.append(xt)
+        alltr.append(tr)
         alld.append(xd)
     if not bad and [seen[r] for r in sorted(seen)] != list(beh['ns']):
         bad = 'the whole trace set is consumed (tail batch included)'
@@ -180,6 +217,7 @@ def run(chk):
     try:
         nb = 0
         per = 10 if q else 40
+        runs = []
         for ki, kind in enumerate(pl.KINDS):
             for mode in ('attack', 'reverse'):
                 for j in range(per):
@@ -191,15 +229,32 @@ def run(chk):
                     prec = 'float64' if nb % 3 else 'float32'
                     if kind == 'MIA' and nb % 2 == 0:
                         prec = 'uint32'
-                    ctx = {'property': 'C02', 'behaviour': beh, 'kind': kind, 'mode': mode, 'precision': prec, 'frame': frame, 'chain': chain, 'seed': chk.seed + nb, 'convergence_step': int(beh['step']) if use_step else None}
-                    a, rec, sets, mk = execute(beh, kind, mode, prec, frame, chain, chk.seed + nb, step=int(beh['step']) if use_step else None)
-                    bad, ctx = compare(chk, beh, a, rec, sets, mk, ctx, frame, chain)
-                    chk.count((kind, mode, json.dumps(beh, sort_keys=True), frame, tuple(chain), prec), nontrivial=len(beh['fed']) > 1)
-                    chk.traces_validated += 1
-                    if bad:
-                        chk.violation(f'{kind}{mode}:{bad}', ctx, f'{kind} {mode} ns={beh["ns"]} base={beh["base"]} frame={frame} chain={chain}: {bad}')
-                    if len(chk.samples) < 3 and len(beh['fed']) > 2:
-                        chk.sample({'ns': beh['ns'], 'batch_size': beh['base'], 'feed': beh['fed'], 'kind': kind, 'mode': mode, 'frame': frame, 'chain': chain})
+                    runs.append((beh, kind, mode, prec, frame, chain, chk.seed + nb, use_step))
+        feeds = spec_feeds(chk, [(beh, frame, chain, seed) for beh, kind, mode, prec, frame, chain, seed, use_step in runs])
+        for ri, (beh, kind, mode, prec, frame, chain, seed, use_step) in enumerate(runs):
+            ctx = {'property': 'C02', 'behaviour': beh, 'kind': kind, 'mode': mode, 'precision': prec, 'frame': frame, 'chain': chain, 'seed': seed, 'convergence_step': int(beh['step']) if use_step else None}
+            a, rec, sets, mk = execute(beh, kind, mode, prec, frame, chain, seed, step=int(beh['step']) if use_step else None)
+            bad, ctx = compare(chk, beh, a, rec, sets, mk, ctx, frame, chain, spec_fed=feeds[ri])
+            chk.count((kind, mode, json.dumps(beh, sort_keys=True), frame, tuple(chain), prec), nontrivial=len(beh['fed']) > 1)
+            chk.traces_validated += 1
+            if bad:
+                chk.violation(f'{kind}{mode}:{bad}', ctx, f'{kind} {mode} ns={beh["ns"]} base={beh["base"]} frame={frame} chain={chain}: {bad}')
+            if len(chk.samples) < 3 and len(beh['fed']) > 2:
+                chk.sample({'ns': beh['ns'], 'batch_size': beh['base'], 'feed': beh['fed'], 'kind': kind, 'mode': mode, 'frame': frame, 'chain': chain})
+        # every generated behaviour with a convergence step (and every one without) on one cheap class: batch-size / step / trace-count
+        # arithmetic is where the run loop can go wrong, and no sampling is involved here
+        for bi, beh in enumerate(cbehs + behs):
+            if q and len(beh['ns']) > 1 and bi % 3:
+                continue
+            step = int(beh['step']) or None
+            kind = ('CPA', 'DPA', 'SNR')[bi % 3]
+            ctx = {'property': 'C02', 'behaviour': beh, 'kind': kind, 'mode': 'attack', 'precision': 'float64', 'frame': 'all', 'chain': [], 'seed': chk.seed + bi, 'convergence_step': step}
+            a, rec, sets, mk = execute(beh, kind, 'attack', 'float64', 'all', [], chk.seed + bi, step=step)
+            bad, ctx = compare(chk, beh, a, rec, sets, mk, ctx, 'all', [])
+            chk.count((kind, 'attack', json.dumps(beh, sort_keys=True), 'all', (), 'float64'), nontrivial=len(beh['fed']) > 1)
+            chk.traces_validated += 1
+            if bad:
+                chk.violation(f'{kind}attack:{bad}', ctx, f'{kind} attack ns={beh["ns"]} base={beh["base"]} step={step}: {bad}')
         batch_rule(chk)
         from .. import apirules
         apirules.run(chk, 'batch_size', 'C02')
